@@ -416,11 +416,20 @@ fn make_summary_txs(
                 // Copy, and add add SFL
                 match &mut unsum_tx.action_specifics {
                     crate::portfolio::TxActionSpecifics::Sell(sell_specs) => {
+                        // A value the user forced ('!') stays forced: in the
+                        // summary it is checked against what is computed from
+                        // the summarized rows, which it overrides just as it
+                        // overrode what was computed from the full history.
+                        let force = sell_specs
+                            .specified_superficial_loss
+                            .as_ref()
+                            .map(|s| s.force)
+                            .unwrap_or(false);
                         sell_specs.specified_superficial_loss = Some(SFLInput {
                             superficial_loss: LessEqualZeroDecimal::from(
                                 sfl.superficial_loss,
                             ),
-                            force: false,
+                            force,
                         });
                     }
                     _ => {
